@@ -268,7 +268,11 @@ func initDateTime() {
 		"date",
 		func(_ *Thread, args []value.Value) (value.Value, value.Value) {
 			self := args[0].AsReference().(*value.DateTime)
-			return self.Date().ToValue(), value.Undefined
+			result, err := self.CheckedDate()
+			if !err.IsUndefined() {
+				return value.Undefined, err
+			}
+			return result.ToValue(), value.Undefined
 		},
 	)
 	Alias(c, "to_date", "date")
